@@ -7,7 +7,7 @@ ACTIONS = ["Init"]
 
 META = {
     "category": "model_checking",
-    "text": "Equality, RFC 4034 6.1 order, composed orders and hash keys of labels, names, character strings, the canonical order of record data (octet order of the canonical wire form given by the Rdata.tla layout table) and of records are operators of Order.tla. TLC checks on an enumerated space (110 labels over the octets around both letter ranges, 166/421 names of up to 3 labels incl. the a.b / a\\.b pair, per-type record data differing in one field, a record grid) that they are total orders coherent with ==, case-insensitive, that hash keys respect ==, that the RFC 4034 example list is sorted, and transitivity over triples. Every enumerated pair is replayed into the real library in every representation (Name<Vec>, Name<Bytes>, ParsedName uncompressed and compressed at three offsets, Chain at three split points, &Name<[u8]>, RelativeName over Vec/slice/Bytes, UncertainName, four case variants; Label and OwnedLabel incl. Borrow<Label> hash agreement and HashMap<OwnedLabel,_> lookup by &Label; CharStr over Vec/slice/Bytes; AllRecordData and ZoneRecordData; Record parsed and flattened, RecordHeader, ParsedRecord, Question) comparing ==, partial_cmp, cmp, name_cmp, canonical_cmp, composed_cmp, lowercase_composed_cmp and hash equality under a fixed hasher; recorded random pairs (names up to 255 octets, record data of all types) are validated by TLC.",
+    "text": "Equality, RFC 4034 6.1 order, composed orders and hash keys of labels, names, character strings, the canonical order of record data (octet order of the canonical wire form given by the Rdata.tla layout table) and of records are operators of Order.tla. TLC checks on an enumerated space (110 labels over the octets around both letter ranges, 166/421 names of up to 3 labels incl. the a.b / a\\.b pair, per-type record data differing in one field, a record grid) that they are total orders coherent with ==, case-insensitive, that hash keys respect ==, that the RFC 4034 example list is sorted, and transitivity over triples. Every enumerated pair is replayed into the real library in every representation (Name<Vec>, Name<Bytes>, ParsedName uncompressed, compressed (labels+pointer, pointer chains, pointer->labels->pointer) and derived from longer names by split_first / parent / iter_suffixes, Chain at three split points, &Name<[u8]>, RelativeName over Vec/slice/Bytes, UncertainName, four case variants; Label and OwnedLabel incl. Borrow<Label> hash agreement and HashMap<OwnedLabel,_> lookup by &Label; CharStr over Vec/slice/Bytes; AllRecordData and ZoneRecordData; Record parsed and flattened, RecordHeader, ParsedRecord, Question) comparing ==, partial_cmp, cmp, name_cmp, canonical_cmp, composed_cmp, lowercase_composed_cmp and hash equality under a fixed hasher; recorded random pairs (names up to 255 octets, record data of all types) are validated by TLC.",
     "note": "Trusted: TLC, Order.tla / Names.tla / Rdata.tla, the harness. Not pinned (only coherence laws demanded): Ord of character strings, record data and records; == of record data whose character strings differ only in case; whether == of records looks at the TTL; canonical order of records of different class, or of the same owner and different type. Transitivity of the implementation's orders follows from agreement with the (TLC-checked) specification order on the enumerated set for pinned orders only; for unpinned orders only antisymmetry and eq<=>cmp=Equal are checked pairwise.",
     "technique": "TLA+ operators (Order.tla) + TLC laws over an enumerated space; spec->impl case replay; impl->spec trace validation",
     "design_ref": "DESIGN.md §4 C04",
